@@ -680,6 +680,12 @@ func (f *dcFn) ptrCopy(recvName string, self *types.Named) *dcPlan {
 		f.fail(stmts[0], "expected `return nil`")
 	}
 	rest := stmts[1:]
+	// hand-written degenerate form after the nil guard: return <receiver>
+	if len(rest) == 1 {
+		if r, ok := rest[0].(*ast.ReturnStmt); ok && len(r.Results) == 1 && dcStr(r.Results[0]) == recvName {
+			return &dcPlan{Op: "PShallow"}
+		}
+	}
 	// generated: out := new(T); in.DeepCopyInto(out); return out
 	if len(rest) == 3 {
 		l, r, ok := dcAssign(rest[0], token.DEFINE)
